@@ -353,6 +353,9 @@ package h2
 //@ ensures f is *http2.RSTStreamFrame && result == nil ==> pRst(procOf(r, old(f.(*http2.RSTStreamFrame).StreamID))) == old(f.(*http2.RSTStreamFrame).ErrCode)
 //@ ensures f is *http2.HeadersFrame && !old(hfEnded(f.(*http2.HeadersFrame))) ==> result == nil && r.continuationState is *headerContinuation && r.continuationState.(*headerContinuation).endStream == old(hfStreamEnded(f.(*http2.HeadersFrame))) && r.continuationState.(*headerContinuation).priority == old(f.(*http2.HeadersFrame).Priority)
 //@ ensures f is *http2.PushPromiseFrame && !old(ppEnded(f.(*http2.PushPromiseFrame))) ==> result == nil && r.continuationState is *pushPromiseContinuation && r.continuationState.(*pushPromiseContinuation).promiseID == old(f.(*http2.PushPromiseFrame).PromiseID)
+// C12/C10: the context of an unfinished header block stays until the CONTINUATION
+// that ends the block (the next CONTINUATION calls a method on it).
+//@ ensures f is *http2.ContinuationFrame && !old(cfEnded(f.(*http2.ContinuationFrame))) ==> result == nil && r.continuationState == old(r.continuationState)
 
 // ---- what a queued frame puts on the wire (C10) ----
 
